@@ -34,7 +34,7 @@ SHAPES = dict(blob=[(0, 0), (0, 1), (1, 0), (1, 1)],
               diag=[(k, k) for k in range(5)],
               Ldot=[(0, 0), (1, 0), (2, 0), (3, 0), (3, 1), (3, 2), (3, 3), (1, 2)])   # a second island inside the L's box
 IMG = (44, 52)
-WCSS = [("SIN", (120.0, -40.0)), ("TAN", (0.02, 62.0))]
+WCSS = [("SIN", (120.0, -40.0)), ("TAN", (0.02, 62.0)), ("SIN", (-1.5, 25.0))]      # the last: a header with NEGATIVE CRVAL1 (= 358.5)
 SCALE = 0.05
 
 
@@ -166,7 +166,7 @@ def ev_finder(case, ctx):
     """full finder: sources straddling the edge; components of kept islands identical to the unrestricted run"""
     k = case["k"]
     d = os.environ["VERIF_SCRATCH"]
-    w = k % 2
+    w = k % len(WCSS)
     hdr = header(w, ctx.seed)
     depth = [8, 10, 11][k % 3]
     kind = ["circle", "polygon"][(k // 2) % 2]
@@ -263,7 +263,7 @@ def ev_wholeimage(case, ctx):
 
 
 WIDEF = [("ZEA", "centre"), ("SIN", "centre"), ("ZEA", "off"), ("SIN", "off"), ("TAN", "off"), ("ARC", "centre"),
-         ("CAR", "dec+40"), ("CAR", "dec-55"), ("SFL", "dec+40"), ("MER", "dec+40"), ("SIN", "near"), ("ZEA", "near")]
+         ("SIN", "negra"), ("CAR", "dec+40"), ("CAR", "dec-55"), ("SFL", "dec+40"), ("MER", "dec+40"), ("SIN", "near"), ("ZEA", "near")]
 
 
 def ev_widefield(case, ctx):
@@ -292,8 +292,8 @@ def ev_widefield(case, ctx):
         for j, (r, c) in enumerate(spots):
             img += (0.6 + 0.01 * j) * np.exp(-0.5 * (((ii - r) / 1.6) ** 2 + ((jj - c) / 1.4) ** 2))
     else:
-        crpix = dict(centre=None, off=(cols + 200.5, -125.25), near=(cols + 40.5, rows / 2.0))[where]
-        hdr = wz.make_header(proj, (200.0 + core.seed_shift(ctx.seed, 32, 10.0), -30.0), sc, IMGW, beam=(4 * sc, 3 * sc, 15.0), **(dict(crpix=crpix) if crpix else {}))
+        crpix = dict(centre=None, negra=None, off=(cols + 200.5, -125.25), near=(cols + 40.5, rows / 2.0))[where]
+        hdr = wz.make_header(proj, ((200.0 if where != "negra" else -3.0) + core.seed_shift(ctx.seed, 32, 10.0), -30.0), sc, IMGW, beam=(4 * sc, 3 * sc, 15.0), **(dict(crpix=crpix) if crpix else {}))
         srcs = [skygauss.source_at_pixel(hdr, r, c, 0.6 + 0.01 * j, 4.5, 3.2, 20.0 * j - 80.0) for j, (r, c) in enumerate(spots)]
         img = skygauss.render(hdr, IMGW, srcs)
     f = os.path.join(d, "c11wf.fits")
